@@ -139,7 +139,8 @@ type World struct {
 	Normalize  bool // snapshots are normalised for comparison across runs (uuids -> version ids, times masked)
 	NeedSettle bool // set by the last Step when it touched a type with background processing
 	LastOp     OpInfo
-	Panics     []string // recovered-panic responses seen on well-formed requests (C20)
+	SnapTypes  map[string]bool // when set, snapshots only read these types (kv lm ann nj roi img)
+	Panics     []string        // recovered-panic responses seen on well-formed requests (C20)
 	FiveXX     []string
 	LabelBase  uint64
 }
@@ -951,4 +952,55 @@ func (wd *World) imgStep(u string) (string, error) {
 		st.img[bc] = true
 	}
 	return "img post", err
+}
+
+// Fork registers a child version created outside Step (tracking state copied from the parent).
+func (wd *World) Fork(parent, child string) {
+	if wd.St[parent] != nil {
+		wd.St[child] = wd.St[parent].clone()
+	}
+}
+
+// Elements returns the tracked annotation positions at a version (sorted).
+func (wd *World) Elements(u string) [][3]int {
+	var out [][3]int
+	for p := range wd.St[u].elems {
+		out = append(out, p)
+	}
+	sort.Slice(out, func(i, j int) bool { return fmt.Sprint(out[i]) < fmt.Sprint(out[j]) })
+	return out
+}
+
+// NJKeys returns the tracked neuronjson body ids at a version (sorted).
+func (wd *World) NJKeys(u string) []uint64 {
+	var out []uint64
+	for id := range wd.St[u].nj {
+		out = append(out, id)
+	}
+	sort.Slice(out, func(i, j int) bool { return out[i] < out[j] })
+	return out
+}
+
+// KVKeys returns the tracked keyvalue keys at a version (sorted).
+func (wd *World) KVKeys(u string) []string {
+	var out []string
+	for k := range wd.St[u].kv {
+		out = append(out, k)
+	}
+	sort.Strings(out)
+	return out
+}
+
+// Bodies returns body -> supervoxels at a version.
+func (wd *World) Bodies(u string) map[uint64][]uint64 { return wd.St[u].bodies() }
+
+// SplitRLE returns a supervoxel that can be split and the RLE body of its first half.
+func (wd *World) SplitRLE(u string) (uint64, []byte) {
+	p := wd.PlanSplitSV(u, map[uint64]bool{})
+	if p == nil {
+		return 0, nil
+	}
+	var sv uint64
+	fmt.Sscanf(p.Req.URL[strings.LastIndex(p.Req.URL, "/")+1:], "%d", &sv)
+	return sv, p.Req.Body
 }
